@@ -184,9 +184,21 @@ func TestVerifC15Chains(t *testing.T) {
 		for _, o := range seen {
 			count[o.name]++
 		}
+		// Several Counter objects may carry one name (they share one record in the file): stacks that differ only
+		// in program counters inside frames that render identically, e.g. two instantiations GF[int] and GF[[]int]
+		// of one generic function, both printed "GF[...]" with equal offsets. Values are summed per name.
+		got := map[string]int{}
 		for _, c := range sc.Counters() {
-			if got := int(c.state.load().extra()); got != count[c.Name()] {
-				t.Fatalf("counter %q has value %d after %d increments from its stack", c.Name(), got, count[c.Name()])
+			got[c.Name()] += int(c.state.load().extra())
+		}
+		for name, g := range got {
+			if g != count[name] {
+				t.Fatalf("counter %q has value %d after %d increments from its stack", name, g, count[name])
+			}
+		}
+		for name, n := range count {
+			if got[name] != n {
+				t.Fatalf("counter %q has value %d after %d increments from its stack", name, got[name], n)
 			}
 		}
 		var cs []string
@@ -264,7 +276,17 @@ func TestVerifC15Encode(t *testing.T) {
 // a newline, and the file reader classifies the same way.
 func TestVerifC15Decode(t *testing.T) {
 	defer vstats.Flush()
-	rapid.Check(t, func(t *rapid.T) {
+	rapid.Check(t, c15DecodeProp)
+}
+
+// FuzzVerifC15Decode: the same property under Go's coverage-guided fuzzer (thorough tier).
+func FuzzVerifC15Decode(f *testing.F) {
+	defer vstats.Flush()
+	f.Fuzz(rapid.MakeFuzz(c15DecodeProp))
+}
+
+func c15DecodeProp(t *rapid.T) {
+	{
 		s := rapid.OneOf(
 			rapid.StringOf(rapid.RuneFrom([]rune("ab./\"\n:+,0x= "))),
 			rapid.String(),
@@ -306,5 +328,5 @@ func TestVerifC15Decode(t *testing.T) {
 			}
 		}
 		vstats.Case(s, hasNL && strings.Contains(s, "\""), fmt.Sprintf("newline:%v", hasNL), fmt.Sprintf("changed:%v", dec != s))
-	})
+	}
 }
